@@ -388,6 +388,14 @@ func h2Sequences() []h2gen {
 			}
 			return cat(pre, b, headersFrame(1, okHeaders(), false, true), dataFrame(1, []byte("x"), true))
 		}},
+		{"continue-x", func(r *hk.Rand) []byte {
+			// k interim header blocks with :status 100 exactly (the status the request writer is told about)
+			var b []byte
+			for i, n := 0, r.Range(1, 5); i < n; i++ {
+				b = append(b, headersFrame(1, []hf{{":status", "100"}}, false, true)...)
+			}
+			return cat(pre, b, headersFrame(1, okHeaders(), false, true), dataFrame(1, []byte("x"), true))
+		}},
 		{"informational-end-stream", func(r *hk.Rand) []byte { return cat(pre, headersFrame(1, []hf{{":status", "100"}}, true, true)) }},
 		{"trailers-odd", func(r *hk.Rand) []byte {
 			tr := hk.Pick(r, [][]hf{{{"x-t", "1"}}, {{":status", "200"}}, {{"content-length", "5"}}, {{"X-T", "1"}}, {}, {{"trailer", "x"}, {"x-t", strings.Repeat("t", 5000)}}})
@@ -513,6 +521,10 @@ func genH2Cases(r *hk.Rand, quick bool, add func(*Case)) {
 		reps = 60
 	}
 	for _, g := range seqs {
+		reps := reps
+		if g.shape == "continue-x" && reps < 9 {
+			reps = 9
+		}
 		for i := 0; i < reps; i++ {
 			if i >= 3 && (strings.Contains(g.shape, "flood") || g.shape == "flow-control-violation") {
 				break // big streams: a few repetitions are enough, and they stay in memory
@@ -526,6 +538,14 @@ func genH2Cases(r *hk.Rand, quick bool, add func(*Case)) {
 				o.Digest, o.AltSvc, o.MaxHeader, o.ReadBuf = false, false, 0, 0
 				c.Opts = o
 				c.Shape += "+" + on
+			}
+			if g.shape == "continue-x" || g.shape == "informational-flood" {
+				// every request kind: no body, a body, a body announced with Expect: 100-continue
+				c.Method = []string{"GET", "POST", "POST"}[i%3]
+				c.Opts.Expect100 = i%3 == 2
+				if c.Opts.Expect100 {
+					c.Shape += "+expect"
+				}
 			}
 			if g.shape == "header-list-too-large" {
 				c.Opts.H2MaxHeaderList = 4096
